@@ -28,9 +28,10 @@ SKIP_EVAL = {"h_recs", "h_gen", "h_bytes", "h_iter", "h_fee", "h_lock", "h_verif
 WL = [Entry(F, None, f, f, "FnsSelftest", {1: 70}) for f in FNS] + \
      [Entry(F, t, m, f"{t}_{m}", "FnsSelftest") for t, m in METHODS + HELPERS] + \
      [Entry(F, "Hp", "node", "Hp_node", "FnsSelftest"),
-      Entry(F, "Hp", "ext", "Hp_ext", "FnsSelftest", abstract=[("self.outside().len()", "olen", "usize")])]
+      Entry(F, "Hp", "ext", "Hp_ext", "FnsSelftest", abstract=[("self.outside().len()", "olen", "usize")]),
+      Entry(F, "Hp", "ext2", "Hp_ext2", "FnsSelftest")]      # inherits the abstracted parameter `olen`
 # `t_result` is compared through a hand-written Lean wrapper (its struct literal has an untranslatable field)
-EXTRA_HELPERS = [("Hp", "node"), ("Hp", "ext")]
+EXTRA_HELPERS = [("Hp", "node"), ("Hp", "ext"), ("Hp", "ext2")]
 EDGES = [0, 1, 2, 3, 5, 7, 8, 31, 32, 63, 64, 65, 127, 128, 200, 255, 256, 65535, 65536, 2**31 - 1, 2**31,
          2**32 - 1, 2**32, 2**63 - 1, 2**63, 2**64 - 2, 2**64 - 1]
 
@@ -105,7 +106,8 @@ def main():
     for name, k, lean_expr in [("t_kf", 2, f"(h_fee {KF_L}, h_lock {KF_L})"),
                                ("t_wt", 3, f"(match h_verify {WT_L} (r.getD 2 0) 40000 with | some () => 1 | none => 0)"),
                                ("t_result", 3, "(unwrapD (Hp_node [r.getD 0 0, r.getD 1 0, r.getD 2 0, (r.getD 0 0) ^^^ (r.getD 1 0)] "
-                                "((r.getD 2 0) ||| 255) (r.getD 0 0) ((r.getD 1 0) &&& 1))) ^^^ Hp_ext (r.getD 2 0) 3")]:
+                                "((r.getD 2 0) ||| 255) (r.getD 0 0) ((r.getD 1 0) &&& 1))) ^^^ Hp_ext (r.getD 2 0) 3 ^^^ "
+                                "Hp_ext2 ((r.getD 2 0) ||| 255) (r.getD 0 0) 3")]:
         cols = [values("u64", rnd, 40) for _ in range(k)]
         tuples = [tuple(rnd.choice(c) for c in cols) for _ in range(300)]
         vars_ = [f"x{i}" for i in range(k)]
